@@ -329,6 +329,84 @@ pub fn run_case(rep: &mut Report, fmt: Fmt, seed: u64, index: u64, verbose: bool
                 }
             }
         }
+        // the same tree written through sinks that are not a Vec (a few bytes accepted per call; a small BufWriter in front
+        // of a write()-only sink), and the bytes decoded on a freshly started thread: neither may change anything
+        if index % 4 == 1 {
+            struct Trickle(Vec<u8>, usize);
+            impl std::io::Write for Trickle {
+                fn write(&mut self, b: &[u8]) -> std::io::Result<usize> {
+                    let n = b.len().min(self.1);
+                    self.0.extend_from_slice(&b[..n]);
+                    Ok(n)
+                }
+                fn flush(&mut self) -> std::io::Result<()> {
+                    Ok(())
+                }
+            }
+            let step = 1 + (index % 13) as usize;
+            let comp = [CompressionType::Lz4, CompressionType::None, CompressionType::Zstd].into_iter().find(|c| comp_name(*c) == vname.as_str());
+            let outs: Vec<(&str, Result<Result<Vec<u8>, String>, crate::report::PanicInfo>)> = vec![
+                ("few-bytes-per-call", catch(|| {
+                    let mut w = Trickle(vec![], step);
+                    match comp {
+                        Some(c) => rbx_binary::Serializer::new().compression_type(c).serialize(&mut w, &built.dom, &sel_refs).map_err(|e| e.to_string())?,
+                        None => rbx_xml::to_writer(&mut w, &built.dom, &sel_refs, xml_options(xml_mode).0).map_err(|e| e.to_string())?,
+                    }
+                    Ok(w.0)
+                })),
+                ("small-bufwriter", catch(|| {
+                    let mut w = std::io::BufWriter::with_capacity(16 + step, Trickle(vec![], usize::MAX));
+                    match comp {
+                        Some(c) => rbx_binary::Serializer::new().compression_type(c).serialize(&mut w, &built.dom, &sel_refs).map_err(|e| e.to_string())?,
+                        None => rbx_xml::to_writer(&mut w, &built.dom, &sel_refs, xml_options(xml_mode).0).map_err(|e| e.to_string())?,
+                    }
+                    w.into_inner().map(|t| t.0).map_err(|e| e.to_string())
+                })),
+            ];
+            for (kind, o) in outs {
+                rep.count(&format!("writer-kinds.{}", kind));
+                let problem = match o {
+                    Ok(Ok(b)) if b == bytes => None,
+                    Ok(Ok(b)) => Some(format!("{} bytes, {} into a Vec, and success was reported", b.len(), bytes.len())),
+                    Ok(Err(e)) => Some(format!("failed: {}", e)),
+                    Err(p) => Some(format!("panicked: {}", p.msg)),
+                };
+                if let Some(pr) = problem {
+                    violated = true;
+                    rep.violation(&format!("{}:writer-kind:{}", prop, kind), &format!("writing through a {} sink: {}", kind, pr), replay.clone(), detail_base.clone());
+                }
+            }
+            let on_thread = std::thread::scope(|sc| {
+                sc.spawn(|| {
+                    catch(|| {
+                        if fmt == Fmt::Binary {
+                            rbx_binary::from_reader(&bytes[..]).map_err(|e| e.to_string())
+                        } else {
+                            rbx_xml::from_reader(&bytes[..], xml_options(xml_mode).1).map_err(|e| e.to_string())
+                        }
+                        .map(|d| {
+                            let mut j = canon::with_nan_class(nan_class, || canon::dump_decoded(&d));
+                            canon::mask_unique_id(&mut j);
+                            j
+                        })
+                    })
+                })
+                .join()
+            });
+            rep.count("decoded-on-another-thread");
+            let mut base = dump.clone();
+            canon::mask_unique_id(&mut base);
+            let problem = match on_thread {
+                Ok(Ok(Ok(j))) => canon::diff(&base, &j).map(|(path, a, b)| format!("differs at {}: {} / {}", path, a, b)),
+                Ok(Ok(Err(e))) => Some(format!("error: {}", e)),
+                Ok(Err(p)) => Some(format!("panicked: {}", p.msg)),
+                Err(_) => Some("the decoding thread died".into()),
+            };
+            if let Some(pr) = problem {
+                violated = true;
+                rep.violation(&format!("{}:other-thread", prop), &format!("decoding the same bytes on a freshly started thread: {}", pr), replay.clone(), detail_base.clone());
+            }
+        }
         // the other public entry points are documented as shorthands: they must agree with the ones used above
         if index % 4 == 0 {
             let mut probes: Vec<(&str, Result<Result<Option<J>, String>, crate::report::PanicInfo>)> = vec![];
